@@ -55,7 +55,16 @@ EXTR = os.path.join(COQ, "extracted")
 
 def build_extracted():
     """Extract the model to OCaml and compile it (when stale w.r.t. the compiled Coq model)."""
+    import fcntl
     os.makedirs(EXTR, exist_ok=True)
+    work = os.path.join(os.path.dirname(COQ), ".work")
+    os.makedirs(work, exist_ok=True)
+    with open(os.path.join(work, "extract.lock"), "w") as lk:
+        fcntl.flock(lk, fcntl.LOCK_EX)
+        _build_extracted_locked()
+
+
+def _build_extracted_locked():
     src = os.path.join(COQ, "Extract.v")
     stamp = os.path.join(EXTR, "prelude.cmx")
     deps = [os.path.join(COQ, "Cases.vo"), os.path.join(os.path.dirname(__file__), "prelude.ml"), src]
